@@ -510,7 +510,8 @@ func TestVerifC07(t *testing.T) {
 		s0 := time.Date(2024, 1, 10, 0, 0, 0, 1, time.UTC)
 		for _, dirname := range []string{"plain-", "profile-2024-01-07-", "backup.2024-01-07.json-", "2023-12-24-"} {
 			for _, mode := range []string{"on", "local"} {
-				for _, ready := range []string{"none", "2023-12-24", "2023-12-17"} {
+				// (the last two are foreign files whose names merely contain the week's date)
+				for _, ready := range []string{"none", "2023-12-24", "2023-12-17", "2024-01-07-notes", "notes-2024-01-07"} {
 					u := zzvNewUNamed(base, dirname)
 					if mode == "on" {
 						u.setModeRaw("on 2020-01-01")
@@ -524,6 +525,10 @@ func TestVerifC07(t *testing.T) {
 					all := zzvAllApproving([]ref.LocalFile{{zzvBuildA, map[string]uint64{"c": 1, "d:a": 1, "s\nF": 1}}, {zzvBuildB, nil}})
 					zzvInstall(all, "v1.2.3", 0.5)
 					before := u.reports()
+					if strings.Contains(ready, "notes") {
+						// what becomes of a foreign file is not this property's business
+						delete(before, "local/"+ready+".json")
+					}
 					err, pan := u.run(s0)
 					res.Evaluations++
 					desc := fmt.Sprintf("directory %q, mode %s, ready report %s", dirname, mode, ready)
